@@ -19,12 +19,22 @@
 (*   row-label-not-window-start         rows are labelled with the start   *)
 (*   row-count-not-window-content       ...of the window they summarise    *)
 (*                                      (source points every Period s)     *)
+(*   window-advanced-by-initial-failure a failed execution does not advance *)
+(*       the window ALSO before the query has ever succeeded.  A query that *)
+(*       never ran has no position; the code looks back a default distance  *)
+(*       from "now" (one hour in ExecuteCQ/handleExecute).  Whatever that   *)
+(*       default is -- a sliding look-back or a fixed anchor -- a failure    *)
+(*       must not shorten it: while no execution has succeeded, a scheduled *)
+(*       window is at least as long as every earlier FAILED window whose    *)
+(*       bounds were both chosen by the code (ev.xs = FALSE; fl = longest   *)
+(*       such window, forgotten after any success).  A code                 *)
+(*       that resumes at the failed window's end yields a shorter window.   *)
 (***************************************************************************)
 EXTENDS Integers, Sequences, FiniteSets
 
 CONSTANT Period
 
-Init0 == [free |-> TRUE, curs |-> {}]
+Init0 == [free |-> TRUE, curs |-> {}, fl |-> 0]
 
 CeilDiv(x)  == (x + Period - 1) \div Period
 Count(s, e) == CeilDiv(e) - CeilDiv(s)          \* source points k*Period in [s, e)
@@ -34,19 +44,23 @@ Clauses(st, ev, checkCount) ==
     (IF ev.s < ev.e THEN {} ELSE {"window-empty"})
     \cup (IF ev.kind = "sched" /\ ~st.free /\ ev.s \notin st.curs
             THEN {"sched-start-not-at-previous-end"} ELSE {})
+    \cup (IF ev.kind = "sched" /\ st.free /\ ev.e - ev.s < st.fl
+            THEN {"window-advanced-by-initial-failure"} ELSE {})
     \cup (IF ev.status = "ok" /\ \E i \in 1..Len(ev.rows) : ev.rows[i].t # ev.s
             THEN {"row-label-not-window-start"} ELSE {})
     \cup (IF checkCount /\ ev.status = "ok" /\ \E i \in 1..Len(ev.rows) : ev.rows[i].n # Count(ev.s, ev.e)
             THEN {"row-count-not-window-content"} ELSE {})
 
+Longer(a, b) == IF a > b THEN a ELSE b
 Apply(st, ev) ==
-    IF ev.status # "ok" THEN st
-    ELSE IF ev.kind = "sched" THEN [free |-> FALSE, curs |-> {ev.e}]
-    ELSE IF st.free THEN st
-    ELSE [free |-> FALSE, curs |-> st.curs \cup {ev.e}]
+    IF ev.status # "ok"
+      THEN IF st.free /\ ~ev.xs THEN [st EXCEPT !.fl = Longer(st.fl, ev.e - ev.s)] ELSE st
+    ELSE IF ev.kind = "sched" THEN [free |-> FALSE, curs |-> {ev.e}, fl |-> 0]
+    ELSE IF st.free THEN [st EXCEPT !.fl = 0]      \* a successful manual run may have given the query a position
+    ELSE [free |-> FALSE, curs |-> st.curs \cup {ev.e}, fl |-> 0]
 
 \* re-synchronisation after a rejected event (trace validation keeps going to report every
 \* violating history of a batch): behave as if the event had been legal
 Resync(st, ev) ==
-    IF ev.status # "ok" THEN st ELSE [free |-> FALSE, curs |-> {ev.e}]
+    IF ev.status # "ok" THEN Apply(st, ev) ELSE [free |-> FALSE, curs |-> {ev.e}, fl |-> 0]
 =============================================================================
